@@ -616,7 +616,15 @@ class DestHandler:
         self._params.fp.file_size_eof = eof_pdu.file_size
         self._params.fp.crc32 = eof_pdu.file_checksum
         self._params.acked_params.metadata_missing = True
-        if self._params.fp.progress > 0:
+        if eof_pdu.condition_code != ConditionCode.NO_ERROR:
+            # This is an EOF (Cancel), perform Cancel Response Procedures according to chapter
+            # 4.6.6 of the standard. The missing metadata and file data are not re-requested.
+            assert self._params.remote_cfg is not None
+            self._trigger_notice_of_completion_canceled(
+                eof_pdu.condition_code,
+                EntityIdTlv(self._params.remote_cfg.entity_id.as_bytes),
+            )
+        elif self._params.fp.progress > 0:
             # Clear old list, deferred procedure for the whole file is now active.
             self._params.acked_params.lost_seg_tracker.reset()
             # I will just wait until the metadata has been received with re-requesting the file
@@ -1127,6 +1135,8 @@ class DestHandler:
             if (
                 self._params.remote_cfg.disposition_on_cancellation
                 and self._params.finished_params.delivery_code == DeliveryCode.DATA_INCOMPLETE
+                # Without metadata, no file was created.
+                and not self._params.acked_params.metadata_missing
             ):
                 self.user.vfs.delete_file(self._params.fp.file_name)
                 self._params.finished_params.file_status = FileStatus.DISCARDED_DELIBERATELY
